@@ -339,13 +339,17 @@ impl Prop for C18 {
             0..=5 => {
                 let big = thorough && rng.chance(1, 60);
                 // inputs beyond 64 KiB (the detection prefix, one BGZF block, one pipe buffer)
-                let mid = !big && rng.chance(1, 40);
+                let mid = !big && rng.chance(1, 25);
                 let p = CallSetParams {
                     allow_no_gt: true,
                     allow_ploidy: rng.chance(1, 10),
                     ..CallSetParams::standard(if big { 40 } else if mid { 30 } else { 8 }, if big { 3000 } else if mid { 900 } else { 12 })
                 };
-                let (callset, cfg) = gen::gen_callset(&mut rng, &p);
+                let (mut callset, cfg) = gen::gen_callset(&mut rng, &p);
+                if mid {
+                    // make sure the encoded input really is longer than 64 KiB (also as raw BCF)
+                    gen::pad_callset(&mut callset, 160_000);
+                }
                 let container = *rng.pick(&[
                     Container::Vcf,
                     Container::VcfGz,
